@@ -401,6 +401,31 @@ def confirm_by_replay(run, family, module, tr, cfg=None, signature_fn=None, text
     return out
 
 
+def model_disagreements(tr):
+    """cases in which an algorithm-layer model (clauses MODEL.*) and the real code disagree"""
+    return [f for f in tr["failed"] if any(c.startswith("MODEL.") for c in f["clauses"])]
+
+
+def gate_model(md, fails):
+    """a model / code disagreement is no verdict of any property: with a violation present the run is a violation,
+    without one it is inconclusive (on the unchanged tree: the model is wrong and has to be corrected)"""
+    if md and not any(f.get("signature") is None for f in fails):
+        raise Inconclusive("algorithm-layer model and code disagree in %d case(s) without a violation, e.g. case %s %s"
+                           % (len(md), md[0]["case"], md[0]["clauses"]))
+
+
+def strip_model(tr, prefix):
+    """keep the failures that carry a clause of this property; drop MODEL.* names from their clause lists"""
+    out = []
+    for f in tr["failed"]:
+        cl = [c for c in f["clauses"] if c.startswith(prefix)]
+        if cl:
+            g = dict(f)
+            g["clauses"] = cl
+            out.append(g)
+    return out
+
+
 def selftest_corrupt(run, module, trace, mutate, cfg=None, name="corrupt one recorded field"):
     """Binding self-test: corrupt one recorded field of an accepted trace and
     require the trace spec to reject it.  A spec that accepts is vacuous."""
